@@ -79,11 +79,16 @@ impl Context {
     }
 
     pub fn push_error_handler_context(&mut self) {
-        // drop all ArgumentState until we hit the first NormalState
+        self.drop_argument_states();
+        self.do_push_existing(0, false);
+    }
+
+    /// Drops all ArgumentState until we hit the first NormalState.
+    /// Needed when an error interrupts the evaluation of the arguments of a call.
+    pub fn drop_argument_states(&mut self) {
         while self.states.last().unwrap().arguments.is_some() {
             self.do_pop();
         }
-        self.do_push_existing(0, false);
     }
 
     pub fn global_variables(&self) -> &Variables {
